@@ -205,7 +205,8 @@ class HBC(Harness):
             drew = any(d[0] == "uniform" for d in rng.draws)
             out.ob("rng_used_only_when_x0_missing", drew == (x0v is None or any(isinstance(v, float) and v != v for v in x0v)))
         if p.get("seed") == "sym":
-            out.ob("seed_recorded", O.eq(bads.optim_state["random_seed"], user_opts["random_seed"], 0.0))
+            rs_ = bads.optim_state.get("random_seed")
+            out.ob("seed_recorded", rs_ is not None and O.eq(rs_, user_opts["random_seed"], 0.0))
             first = rng.draws[0] if rng.draws else None
             out.ob("seeded_before_first_draw", first is not None and first[0] == "seed")
         return out
